@@ -373,7 +373,7 @@ def probe_body(r, ctype, body, accessor, chunks=None):
         except UnicodeEncodeError:
             continue
         if exc is not None and not allowed(exc):
-            report(r, accessor, iface, exc, {"kind": "body", "ctype": ctype, "body": body, "accessor": accessor}, f"Content-Type {ctype!r:.60} body {body[:40]!r}")
+            report(r, accessor, iface, exc, dict({"kind": "body", "ctype": ctype, "body": body, "accessor": accessor}, **({"pieces": [len(c) for c in chunks]} if chunks else {})), f"Content-Type {ctype!r:.60} body {body[:40]!r}" + (f" in pieces {[len(c) for c in chunks]}" if chunks else ""))
 
 
 def special_bodies():
@@ -632,6 +632,10 @@ def run_shard(desc, tier):
             probe_body(r, ctype, body, accessor)
             if len(body) > 3:
                 probe_body(r, ctype, body, accessor, chunks=[body[:1], body[1:len(body) // 2], b"", body[len(body) // 2:]])
+            if ctype.startswith("multipart/") and "charset=" in ctype and len(body) < 400:
+                # every cut of the body in two: a field value, a name, a header line arrives in pieces
+                for cut in range(1, len(body)):
+                    probe_body(r, ctype, body, accessor, chunks=[body[:cut], body[cut:]])
         r.sample({"special": "5000-digit number, deep nesting, invalid UTF-8, 16 charsets, 11 boundary variants, headers without colon"})
     elif kind == "overlap":
         # what a client sends is also *when* it sends it: two requests with valid (and invalid) Range headers in flight at once
@@ -717,6 +721,12 @@ def replay(w):
         probe_headers(r, w["name"], w["value"])
     elif k == "body":
         probe_body(r, w["ctype"], w["body"], w["accessor"])
+        if w.get("pieces"):
+            b, pos, pieces = w["body"], 0, []
+            for n in w["pieces"]:
+                pieces.append(b[pos:pos + n])
+                pos += n
+            probe_body(r, w["ctype"], b, w["accessor"], chunks=pieces)
         if len(w["body"]) > 3:
             b = w["body"]
             probe_body(r, w["ctype"], b, w["accessor"], chunks=[b[:1], b[1:len(b) // 2], b"", b[len(b) // 2:]])
